@@ -106,42 +106,36 @@ def escTail (xb : Bytes) : Nat × Bool × Nat :=
   else (xoff, false, 0)
 
 /-- the `while` loop of `process_value`; `xb` = `xbuf[0..xoff)`, `vs`/`ve` =
-    `value_start`/`value_end` as offsets into the chunk `d` -/
-def pvLoop : Nat → Bytes → PP → Bytes → Nat → Nat → PP
-  | 0, _, pp, _, _, _ => pp.setFault "process_value-fuel"
-  | fuel + 1, d, pp, xb, vs, ve =>
+    `value_start`/`value_end` as offsets into the chunk `d`; `last` = the value ends at `ve`
+    (fix F15c: then an incomplete escape at the very end is not held back) -/
+def pvLoop : Nat → Bytes → PP → Bytes → Nat → Nat → Bool → PP
+  | 0, _, pp, _, _, _, _ => pp.setFault "process_value-fuel"
+  | fuel + 1, d, pp, xb, vs, ve, last =>
     if ¬ (vs ≠ ve ∨ pp.mustIkvi ∨ xb.length > 0) then pp else
     if xb.length > XBUF ∨ ve < vs ∨ ve > d.length then pp.setFault "process_value-range" else
     let delta := min (ve - vs) (XBUF - xb.length)
     let xb1 := xb ++ slice d vs (vs + delta)
     let vs1 := vs + delta
-    let (xoff2, cut, clen) := escTail xb1
+    let (xoff2, cut, clen) := if last = true ∧ vs1 = ve then (xb1.length, false, 0) else escTail xb1
     let pp1 := if cut then { pp with xbuf := xb1.drop xoff2 } else pp
     let dec := if xoff2 ≠ 0 then unescape (xb1.take xoff2) else []
     let pp2 := if pp1.mustIkvi ∨ dec.length ≠ 0 then emitUrl { pp1 with mustIkvi := false } dec else pp1
     let pp3 := { pp2 with valueOffset := pp2.valueOffset + dec.length }
     if cut then pp3
-    else pvLoop fuel d pp3 (if clen ≠ 0 then xb1.drop xoff2 else []) vs1 ve
+    else pvLoop fuel d pp3 (if clen ≠ 0 then xb1.drop xoff2 else []) vs1 ve last
 
-/-- `process_value (pp, value_start, value_end, last_escape)` -/
-def processValue (d : Bytes) (pp : PP) (vs ve le : Option Nat) : PP :=
+/-- `process_value (pp, value_start, value_end, last_escape, last)`.
+    (fix F15d: `last_escape` is no longer used — a '%' at the end of the range is found by the
+    loop itself; putting it aside beforehand lost it when the rest ended with another escape) -/
+def processValue (d : Bytes) (pp : PP) (vs ve _le : Option Nat) (last : Bool) : PP :=
   if pp.xbuf.length > Mhd.Gen.PP.ppXbufLen then pp.setFault "pp-xbuf-oob" else
   let xb := pp.xbuf
   let pp0 := { pp with xbuf := [] }
   match vs, ve with
-  | none, none =>
-    match le with
-    | some _ => pp.setFault "process_value-null-range"
-    | none => pvLoop 3 d pp0 xb 0 0
+  | none, none => pvLoop 3 d pp0 xb 0 0 last
   | some s, some e =>
-    if e < s ∨ e > d.length then pp.setFault "process_value-range" else
-    match le with
-    | some l =>
-      if l > e then pp.setFault "process_value-escape-ptr" else
-      if e - l < Mhd.Gen.PP.ppXbufLen then
-        pvLoop (l - s + 3) d { pp0 with xbuf := slice d l e } xb s l
-      else pvLoop (e - s + 3) d pp0 xb s e
-    | none => pvLoop (e - s + 3) d pp0 xb s e
+    if e < s ∨ e > d.length then pp.setFault "process_value-range"
+    else pvLoop (e - s + 3) d pp0 xb s e last
   | _, _ => pp.setFault "process_value-null-range"
 
 /-- locals of `post_process_urlencoded` -/
@@ -182,12 +176,12 @@ def urlValue (c : UInt8) (pp : PP) (l0 : UL) : PP × UL :=
   if c = cEq then ({ pp with state := .error }, l)
   else if c = cAmp then
     let l1 := { l with endValue := some l.poff, poff := l.poff + 1 }
-    if pp.mustIkvi ∨ l.startValue ≠ some l.poff then ({ pp with state := .callback }, l1)
+    if pp.mustIkvi ∨ l.startValue ≠ some l.poff ∨ pp.xbuf.length ≠ 0 then ({ pp with state := .callback }, l1)
     else ({ pp with bufferPos := 0, valueOffset := 0, state := .init },
           { l1 with startValue := none, endValue := none })
   else if c = cLF ∨ c = cCR then
     let l1 := { l with endValue := some l.poff }
-    if pp.mustIkvi ∨ l.startValue ≠ some l.poff then ({ pp with state := .callback }, l1)
+    if pp.mustIkvi ∨ l.startValue ≠ some l.poff ∨ pp.xbuf.length ≠ 0 then ({ pp with state := .callback }, l1)
     else ({ pp with state := .done }, { l1 with poff := l.poff + 1 })
   else if c = cPct then (pp, { l with lastEscape := some l.poff, poff := l.poff + 1 })
   else if isDigit c then (pp, { l with poff := l.poff + 1 })
@@ -220,7 +214,7 @@ def urlCallbackKey (d : Bytes) (pp : PP) (l : UL) : PP × UL :=
 def urlCallback (d : Bytes) (pp : PP) (l : UL) : PP × UL :=
   let (pp2, l1) := urlCallbackKey d pp l
   if pp2.state = .error then (pp2, l1) else
-  let pp3 := processValue d pp2 l1.startValue l1.endValue none
+  let pp3 := processValue d pp2 l1.startValue l1.endValue none true
   if pp3.state = .error then (pp3, l1) else
   ({ pp3 with valueOffset := 0, bufferPos := 0, state := .init },
    { l1 with startValue := none, endValue := none })
@@ -273,7 +267,7 @@ def urlTailValue (d : Bytes) (pp1 : PP) (l : UL) : PP :=
     let pp1a := if pp1.mustUnescapeKey then unescapeKey pp1 else pp1
     if pp1a.fault.isSome then pp1a else
     let ev := l.endValue.getD l.poff
-    let pp1b := processValue d pp1a l.startValue (some ev) (tailEscape l.lastEscape ev)
+    let pp1b := processValue d pp1a l.startValue (some ev) (tailEscape l.lastEscape ev) false
     { pp1b with mustIkvi := false }
   else pp1
 
@@ -287,7 +281,7 @@ def urlTail (d : Bytes) (pp : PP) (l : UL) : PP × Bool :=
 
 /-- `post_process_urlencoded (pp, post_data, post_data_len)`; result = `MHD_YES`? -/
 def postProcessUrlencoded (pp : PP) (d : Bytes) : PP × Bool :=
-  let (pp1, l1) := urlLoop (3 * d.length + 3) d pp {}
+  let (pp1, l1) := urlLoop (3 * d.length + 4) d pp {}
   if pp1.fault.isSome then (pp1, false) else
   urlTail d pp1 l1
 
